@@ -34,21 +34,61 @@ ASSUMPTIONS = [
     "comment bodies do not begin/end with '+' or '-' and are non-empty (ambiguous with a modifier)",
     "lstrip_blocks before a tag preceded on its line by whitespace other than spaces/tabs is not judged (configuration skipped, counted)",
     "environments are reused across cases inside a worker (configuration objects only)",
+    "each of a case's configurations is realised by one creation route (fresh Environment / overlay of an already used environment) and one "
+    "finalize kind (none / plain / pass_environment / pass_context / pass_eval_context, all string-altering), rotating with a hash of the "
+    "source, so every case sees both routes and every finalize kind; template data must never be finalized (docs/api.rst)",
 ]
 
 NK = [(n, k) for n in ws.NL_SEQS for k in (False, True)]
 _envs = {}
 
 
-def get_env(syn_name, trim, lstrip, nls, ktn):
-    key = (syn_name, trim, lstrip, nls, ktn)
+FINALIZERS = ["none", "plain", "pass_environment", "pass_context", "pass_eval_context"]
+ROUTES = ["fresh", "overlay"]
+
+
+def _finalizer(kind):
+    """string-altering finalize functions: template DATA must never pass through them (docs/api.rst: finalize is
+    'a callable that can be used to process the result of a variable expression before it is output')"""
+    import jinja2
+
+    if kind == "none":
+        return None
+    if kind == "plain":
+        return lambda v: "<%s>" % (v,)
+    deco = getattr(jinja2, kind)
+
+    @deco
+    def fin(first, v):
+        return "<%s>" % (v,)
+
+    return fin
+
+
+def get_env(syn_name, trim, lstrip, nls, ktn, fin="none", route="fresh"):
+    """route 'fresh': Environment(**options); route 'overlay': an overlay, carrying the whitespace / newline options, of a
+    default-option environment that has already rendered a template (the property quantifies over configurations however created)"""
+    key = (syn_name, trim, lstrip, nls, ktn, fin, route)
     env = _envs.get(key)
     if env is None:
         from jinja2 import Environment
 
-        env = _envs[key] = Environment(trim_blocks=trim, lstrip_blocks=lstrip, newline_sequence=nls, keep_trailing_newline=ktn,
-                                       **skel.env_kwargs(skel.syntax(syn_name)))
+        kw = skel.env_kwargs(skel.syntax(syn_name))
+        if route == "fresh":
+            env = Environment(trim_blocks=trim, lstrip_blocks=lstrip, newline_sequence=nls, keep_trailing_newline=ktn, finalize=_finalizer(fin), **kw)
+        else:
+            base = Environment(finalize=_finalizer(fin), **kw)
+            if base.from_string("warm\r\nup\n").render() != "warm\nup":
+                raise core.Violation("default environment does not render 'warm\\r\\nup\\n' as 'warm\\nup' (finalize=%s, syntax=%s)" % (fin, syn_name))
+            env = base.overlay(trim_blocks=trim, lstrip_blocks=lstrip, newline_sequence=nls, keep_trailing_newline=ktn)
+        _envs[key] = env
     return env
+
+
+def _variant(h, j):
+    """finalize variant and creation route for configuration number j of a case with hash h: every case sees both routes
+    and (with 6 configurations) every finalize kind"""
+    return FINALIZERS[(h + j) % len(FINALIZERS)], ROUTES[(h // 5 + j) % 2]
 
 
 LONE = set("{}%#")
@@ -58,12 +98,14 @@ def _plain(case):
     src = case["src"]
     if skel.has_start(src):
         raise core.Discard()
-    for nls, ktn in NK:
+    h = sum(map(ord, src)) + len(src)
+    for j, (nls, ktn) in enumerate(NK):
         exp = ws.plain_text(src, nls, ktn)
-        got = get_env("default", False, False, nls, ktn).from_string(src).render()
+        fin, route = _variant(h, j)
+        got = get_env("default", False, False, nls, ktn, fin, route).from_string(src).render()
         if got != exp:
-            raise core.Violation("plain text not rendered verbatim\n source: %r\n newline_sequence=%r keep_trailing_newline=%s\n expected: %r\n rendered: %r"
-                                 % (src, nls, ktn, exp, got))
+            raise core.Violation("plain text not rendered verbatim\n source: %r\n newline_sequence=%r keep_trailing_newline=%s finalize=%s environment=%s\n expected: %r\n rendered: %r"
+                                 % (src, nls, ktn, fin, route, exp, got))
     labels = []
     has_nl = "\n" in src or "\r" in src
     if has_nl:
@@ -109,6 +151,8 @@ def _skel(case):
     pr = skel.printer(syn)
     no_minus = all("-" not in (s[1], s[2]) + ((s[4], s[5]) if s[0] == "raw" else ()) for s in csk if s[0] != "text")
     effects = set()
+    h = sum(map(ord, src)) + len(src)
+    j = -1
     for trim, lstrip in ((False, False), (True, True)):
         for ktn in (False, True):
             try:
@@ -120,8 +164,11 @@ def _skel(case):
                 continue
             for nls in ws.NL_SEQS:
                 exp = a.rendered(nls)
-                got = get_env(syn_name, trim, lstrip, nls, ktn).from_string(src).render()
-                cfg = "trim_blocks=%s lstrip_blocks=%s newline_sequence=%r keep_trailing_newline=%s syntax=%s" % (trim, lstrip, nls, ktn, syn_name)
+                j += 1
+                fin, route = _variant(h, j)
+                got = get_env(syn_name, trim, lstrip, nls, ktn, fin, route).from_string(src).render()
+                cfg = "trim_blocks=%s lstrip_blocks=%s newline_sequence=%r keep_trailing_newline=%s syntax=%s finalize=%s environment=%s" % (
+                    trim, lstrip, nls, ktn, syn_name, fin, route)
                 if got != exp:
                     raise core.Violation("comment/raw skeleton: output differs from the model\n source: %r\n config: %s\n expected: %r\n rendered: %r"
                                          % (src, cfg, exp, got))
@@ -162,7 +209,7 @@ def skel_strategy(syn_name):
         lambda sk: {"kind": "skel", "sk": [s for s in sk if s[0] in ("text", "comment", "raw")], "syn": syn_name})
 
 
-SHARD_SYN = ["default"] * 10 + ["php", "erb", "brackets", "three", "ops", "default"]
+SHARD_SYN = ["default"] * 7 + ["blockbr", "parens", "latex"] + ["php", "erb", "brackets", "three", "ops", "default"]
 
 
 def run_shard(spec, ctx):
